@@ -42,7 +42,7 @@ def concrete(t: T, env: dict, funcs: dict | None = None):
             return {ev(y) for y in a[0]}
         if op == "dict":
             return {ev(k): ev(v) for k, v in a[0]}
-        if op == "modconst":
+        if op in ("modconst", "assume"):
             return ev(a[1])
         if op == "not":
             return not ev(a[0])
